@@ -9,7 +9,7 @@ META = {
              '(record length class, size class, outcome); non-trivial when a record body is < 12 bytes, the record '
              'length is < 32 or >= 16382, a name has >= 128 characters, or a body exceeds 3 capacities'),
     'required_obs': {'quick': ['body-lt-12', 'mx-20..30', 'mx-32', 'mx-16384', 'name-255', 'body-gt-3cap',
-                               'write-ok', 'odd-body', 'row-ge-64KiB', 'row-ge-1MiB']},
+                               'write-ok', 'odd-body', 'row-ge-64KiB', 'row-ge-1MiB', 'file-decoded', 'name-255']},
     'exhaustive_windows': {
         'quick': ['every even record length 20..256 and a stride sample above, with a fixed small specification'],
         'thorough': ['every even record length 20..16384 (8183 values) with a fixed small specification',
@@ -82,7 +82,7 @@ def run_case(case):
     def bump(k):
         obs[k] = obs.get(k, 0) + 1
 
-    def judge(run, sig, what):
+    def judge(run, sig, what, whole_file=True):
         nonlocal evals
         evals += 1
         sigs.append(sig)
@@ -98,6 +98,16 @@ def run_case(case):
         oracle.check_c02(run)
         for v in run.by_prop('C01') + run.by_prop('C02'):
             vio.append({'prop': PROP, 'kind': 'written-file-malformed', 'mech': v.mech, 'detail': f'{what}: {v.detail}'})
+        # ... and every record must decode (a name whose length is mis-encoded still tiles the visible records nicely)
+        if not whole_file:
+            return          # (writer-level sequences of raw records are not logical files)
+        oracle.decode(run)
+        if run.stage_error is not None:
+            e = run.stage_error[1]
+            vio.append({'prop': PROP, 'kind': 'written-file-undecodable', 'mech': 'undecodable:' + getattr(e, 'kind', type(e).__name__),
+                        'detail': f'{what}: {e}'})
+        elif run.lfs is not None:
+            bump('file-decoded')
 
     def small_spec(mx, rows=2, dtype='<f8', width=None, chname='CH1'):
         sp = gen.minimal(mx, rows=rows, dtype=dtype, width=width, output_chunk_size=max(mx, 4096))
@@ -190,7 +200,7 @@ def run_case(case):
                 bump('body-gt-3cap')
             if L % 2:
                 bump('odd-body')
-            judge(run, f'writer:{mx}:{L}', f'record body of {L} bytes, record length {mx}')
+            judge(run, f'writer:{mx}:{L}', f'record body of {L} bytes, record length {mx}', whole_file=False)
     else:
         r = gen.rng(seed, PROP, case['stratum'], case['index'])
         mx = 2 * r.randint(10, 8192) if r.random() < 0.5 else r.choice([20, 22, 24, 26, 28, 30, 32, 34, 64, 128])
